@@ -215,6 +215,14 @@ def evalCheck (c0 : CaseSt) (ov : Override) (toks : List String) (rawOv : Nat â†
     match parseRat? tol, buildFormula c ov rpn with
     | some tol, some (atoms, node) => showVerdict (checkFormula "formula" atoms (fun v => node.eval v) tol)
     | _, _ => "skip unresolved"
+  | ["region", k, tol] =>
+    -- C01 through the definition whose soundness is `Gbo.Props.C01_check_sound`
+    match k.toNat?, parseRat? tol with
+    | some k, some tol =>
+      match res k, (c.runs[k]?).bind (Â·.req) with
+      | some r, some rq => showVerdict (c01Verdict rq.a rq.b r rq.op tol)
+      | _, _ => "skip unresolved"
+    | _, _ => "skip unresolved"
   | ["valid", k, tol] =>
     match k.toNat?.bind res, parseRat? tol with
     | some m, some tol => showVerdict (validOutput m tol)
